@@ -144,3 +144,56 @@ def tape_map(tp, f):
             else: out.append(('tbl', [[(c[0], c[1], go(c[2])) for c in r] for r in b[1]]))
         return out
     return [(k, go(bl)) for k, bl in tp]
+
+# ----------------------------------------------------------------------------- edit batches on the engine, with oracle recording
+def engine_edits(b, edits, author='Tester'):
+    """edits: [(target, new, comment|None, index|None)] -> dict(ap, sk, out, oracle, ts, err)"""
+    from adeu.redline.engine import RedlineEngine
+    from adeu.redline.mapper import DocumentMapper
+    from adeu.models import DocumentEdit
+    rec = []
+    orig = DocumentMapper.find_match_index
+    def wrapped(self, target_text):
+        r = orig(self, target_text)
+        if self.full_text.find(target_text) == -1:
+            rec.append(None if r[0] == -1 else [r[0], r[1]])
+            if r[0] != -1 and not (0 <= r[0] and r[0] + r[1] <= len(self.full_text)): rec.append('CONTRACT')
+        return r
+    DocumentMapper.find_match_index = wrapped
+    try:
+        e = RedlineEngine(io.BytesIO(b), author=author)
+        des = []
+        for t, n, c, i in edits:
+            de = DocumentEdit(target_text=t, new_text=n, comment=c)
+            if i is not None: de._match_start_index = i
+            des.append(de)
+        ap, sk = e.apply_edits(des)
+        return {'ap': ap, 'sk': sk, 'out': e.save_to_stream().getvalue(), 'oracle': rec, 'ts': e.timestamp, 'err': None}
+    except Exception as ex:
+        import traceback
+        return {'err': '%s: %s' % (type(ex).__name__, ex), 'tb': traceback.format_exc()[-1500:], 'oracle': rec}
+    finally:
+        DocumentMapper.find_match_index = orig
+
+def canon_session(doc, din, ts=None):
+    """replace dates that do not occur in the input document by SESSION (revision marks and comments created by the run)"""
+    old = set()
+    def dates(nodes):
+        for n in nodes:
+            if n[0] in ('ins', 'del'): old.add(n[2][2]); dates(n[3])
+    for p in A.paras(din): dates(p['nodes'])
+    for c in din['comments']: old.add(c.get('date') or '')
+    def fix(nodes):
+        for n in nodes:
+            if n[0] in ('ins', 'del'):
+                if n[2][2] not in old: n[2][2] = 'SESSION'
+                fix(n[3])
+    for p in A.paras(doc): fix(p['nodes'])
+    for c in doc['comments']:
+        if (c.get('date') or '') not in old: c['date'] = 'SESSION'
+    return doc
+
+def sx_edits_line(din, author, edits, oracle):
+    eds = ' '.join('(%s %s %s %s)' % (A.sx_str(t), A.sx_str(n), A.sx_str(c or ''), '()' if i is None else '(1 %d)' % i) for t, n, c, i in edits)
+    orc = ' '.join('()' if o is None else '(%d %d)' % (o[0], o[1]) for o in oracle if o != 'CONTRACT')
+    return '(%s %s %s (%s) (%s))' % (A.sx_doc(din), A.sx_str(author), A.sx_str('SESSION'), eds, orc)
